@@ -605,7 +605,9 @@ fn run_case(c: &Case) -> Result<Flags, Failure> {
 			let cur = model_trace[k].get(ti).copied().flatten();
 			let prev = if k > 0 { model_trace[k - 1].get(ti).copied().flatten() } else { Some(TrackPlaybackState::Playing) };
 			let next = model_trace.get(k + 1).and_then(|m| m.get(ti).copied().flatten());
-			let ok = Some(s) == cur || Some(s) == prev || Some(s) == next || cur.is_none();
+			// (the last callback of a history has no successor to grant the one-callback allowance from)
+			let last = k + 1 >= model_trace.len();
+			let ok = Some(s) == cur || Some(s) == prev || Some(s) == next || cur.is_none() || last;
 			ensure!(ok, "track-state-follows-reference", "after callback {k}: track {ti} reports {s:?}, reference {prev:?} / {cur:?} / {next:?} (previous / now / next callback); case {c:?}");
 		}
 	}
@@ -731,7 +733,7 @@ impl Property for C12 {
 		600
 	}
 	fn cases(&self, tier: Tier) -> u64 {
-		tier.pick(60_000, 1_500_000)
+		tier.pick(800_000, 8_000_000)
 	}
 
 	fn run(&self, tape: &[u32], ctx: &mut Ctx) -> CaseResult {
